@@ -365,8 +365,13 @@ func c14Body(x *explore.Ctx, ui int) {
 		accOK := (acc == "correct" || acc == "spaces") && !stale
 		statusOK := strings.HasPrefix(status, "101")
 		want := statusOK && hasUpg && hasConn && accOK
-		if want {
+		// "only if": a client may be stricter than necessary about unusual-but-valid replies
+		// (extra tokens, repeated header lines); the canonical reply must be accepted
+		canonical := len(rUpg) == 1 && len(rConn) == 1 && strings.EqualFold(rUpg[0], "websocket") && strings.EqualFold(rConn[0], "upgrade")
+		if want && canonical {
 			x.Check(d.conn != nil, key("good-reply-rejected"), "reply proving acceptance rejected: %v", d.err)
+		} else if want {
+			x.Check(d.conn != nil || d.err != nil, key("conn-xor-err"), "neither connection nor error")
 		} else {
 			x.Check(d.conn == nil, key("bad-reply-accepted:"+badWhy(statusOK, hasUpg, hasConn, accOK, stale, acc)), "Dial returned a connection although status=%q Upgrade=%q Connection=%q Accept=%s stale=%v", status, rUpg, rConn, acc, stale)
 			x.Check(d.err == websocket.ErrBadHandshake, key("bad-reply-error"), "bad reply produced %v, want ErrBadHandshake", d.err)
